@@ -1219,6 +1219,14 @@ def gen_tlc(rng, knobs=None):
     kind, R = b['kind'], b['init']
     P = 's' if R == 'c' else 'c'
     opts = {'mode': rng.choice(['tcp', 'tcp', 'msg']), 'frag': None, 'read_buffer': rng.choice([1, 7, 1024])}
+    fragmented = bool(b.get('frag'))
+    if fragmented:
+        opts['frag'] = 64
+
+    def elem():
+        # (with fragmentation an element / a response is exactly two fragments long at size 64, as in the model)
+        return rng.choice([[80, 0], [100, 0], [60, 30], [0, 90]]) if fragmented else spec(rng, big=False)
+
     prog = [['start'], ['pump'], ['gate_close', 'c'], ['gate_close', 's']]
     ep_of = {'req': R, 'resp': P}
     p_settle = rng.choice([1.0, 0.7, 0.4])
@@ -1254,15 +1262,15 @@ def gen_tlc(rng, knobs=None):
             continue
         if name == 'AppOpen':
             n0 = args[0]
-            sp = spec(rng, big=False)
+            sp = rng.choice([[5, 0], [20, 10], [1, 0]]) if fragmented else spec(rng, big=False)      # (a request always fits one frame, as in the model)
             want_witness = k.get('witness', True) and rng.random() < 0.4
             if kind == 'rr':
                 prog.append(['rr', R, sp, {'mode': 'later'}])
             elif kind == 'stream':
-                pol = {'src': 'generator', 'items': items(rng, lib_items, big=False), 'complete_on_last': True} if b.get('lib') else {'src': 'scripted'}
+                pol = {'src': 'generator', 'items': [elem() for _ in range(lib_items)], 'complete_on_last': True} if b.get('lib') else {'src': 'scripted'}
                 prog.append(['stream', R, sp, n0, pol, True])
             else:
-                src = {'src': 'generator', 'items': items(rng, lib_items, big=False), 'complete_on_last': True} if b.get('lib') else {'src': 'scripted'}
+                src = {'src': 'generator', 'items': [elem() for _ in range(lib_items)], 'complete_on_last': True} if b.get('lib') else {'src': 'scripted'}
                 pol = dict(src, pub=True, sub=True)
                 prog.append(['channel', R, sp, n0, pol, bool(b.get('haspub')), dict(src) if b.get('haspub') else None, True])
             if want_witness:
@@ -1282,12 +1290,12 @@ def gen_tlc(rng, knobs=None):
             src = 's' if args[0] == 'c' else 'c'
             prog.append(['deliver_frame', src, maybe_settle()])
         elif name == 'Respond':
-            prog.append(['respond_error', 0] if args[0] else ['respond', 0, spec(rng, big=False)])
+            prog.append(['respond_error', 0] if args[0] else ['respond', 0, elem()])
             if maybe_settle():
                 prog.append(['settle'])
         elif name == 'PubNext':
             if not b.get('lib'):
-                sp = spec(rng, big=False)
+                sp = elem()
                 prog.append(['emit', 0, args[0], sp[0], sp[1], 1 if args[1] else 0])
             else:
                 prog.append(['settle'])
